@@ -23,7 +23,8 @@ the fragment of the language for which the compiler-correctness theorem exists
   neither a type name nor bound; `no_identifier_creates_binding_failure`: every identifier of `e` then
   resolves to a type value or to the value it is bound to, for all trees.)
 
-NOT covered (`…_partial`): the trees outside the fragment — type patterns of `match`, map literals,
+NOT covered here (`…_partial`; see `Theorems/C17Sem2.lean` for the larger fragment `Frag2`, which has them): the
+trees outside the fragment — type patterns of `match`, map literals,
 f-strings, member access / index / calls / macros (so: call arguments and receivers, macro ranges and bodies,
 f-string segments, index expressions, map keys and values of the property text) — and stored programs
 reached through identifiers (`NoProgs`; `paramsClosure` of DESIGN §7 is `params` there).  For those the
@@ -67,9 +68,9 @@ theorem frag_mono {e : Ast} (h : InFragment e) : InFragmentM e := by
 
 /-- **Coincidence lemma** (fragment).  Two environments that agree on every reported name give the tree
     the same value — a failure included, failures being values of `evalSpec`. -/
-theorem params_sufficient_partial {e : Ast} (h : InFragmentM e) {env₁ env₂ : Env}
+theorem params_sufficient_partial {B : Builtins} {e : Ast} (h : InFragmentM e) {env₁ env₂ : Env}
     (hag : ∀ n ∈ params e, env₁.getType n = env₂.getType n ∧ env₁.getParam n = env₂.getParam n) :
-    evalSpec e env₁ = evalSpec e env₂ :=
+    evalSpec B e env₁ = evalSpec B e env₂ :=
   SpecCoincide.coincide h (fun n hn => resolve_of_agree (hag n (C17.mem_dedup.mpr hn)))
 
 /-- **Executions of the compiled program** under two bindings that agree on all reported names give the
@@ -121,13 +122,13 @@ theorem differ_bind (env : Env) (x : Str) (v : Val) : DifferOnlyAt x (env.bind x
 
 /-- Changing (adding, replacing, removing) the binding of a name that is **not reported** does not change
     the value. -/
-theorem unreported_irrelevant {e : Ast} (h : InFragmentM e) {x : Str} (hx : x ∉ params e) {env₁ env₂ : Env}
-    (hd : DifferOnlyAt x env₁ env₂) : evalSpec e env₁ = evalSpec e env₂ :=
+theorem unreported_irrelevant {B : Builtins} {e : Ast} (h : InFragmentM e) {x : Str} (hx : x ∉ params e) {env₁ env₂ : Env}
+    (hd : DifferOnlyAt x env₁ env₂) : evalSpec B e env₁ = evalSpec B e env₂ :=
   params_sufficient_partial h (fun n hn => hd n (fun hnx => hx (hnx ▸ hn)))
 
 /-- … in particular `bind_param(x, v)` on top of any environment. -/
-theorem unreported_bind_irrelevant {e : Ast} (h : InFragmentM e) {x : Str} (hx : x ∉ params e) (env : Env)
-    (v : Val) : evalSpec e (env.bind x v) = evalSpec e env :=
+theorem unreported_bind_irrelevant {B : Builtins} {e : Ast} (h : InFragmentM e) {x : Str} (hx : x ∉ params e) (env : Env)
+    (v : Val) : evalSpec B e (env.bind x v) = evalSpec B e env :=
   unreported_irrelevant h hx (differ_bind env x v)
 
 /-- The compiled program, executed with and without a binding for an unreported name. -/
@@ -169,9 +170,9 @@ theorem resolve_of_extends {env env' : Env} (hext : Extends env env') {n : Str}
     value of `e` is its value under every extension of the environment: no additional binding changes it —
     in particular not the Binding failure that an identifier of `e` without a binding would have produced
     and that a further binding would remove. -/
-theorem params_no_binding_error_partial {e : Ast} (h : InFragmentM e) {env : Env}
+theorem params_no_binding_error_partial {B : Builtins} {e : Ast} (h : InFragmentM e) {env : Env}
     (hb : AllBound env (params e)) {env' : Env} (hext : Extends env env') :
-    evalSpec e env' = evalSpec e env :=
+    evalSpec B e env' = evalSpec B e env :=
   SpecCoincide.coincide h (fun n hn => resolve_of_extends hext (hb n (C17.mem_dedup.mpr hn)))
 
 /-- The compiled program: executed under any extension of a binding set that covers the reported names, it
@@ -185,8 +186,8 @@ theorem exec_params_no_binding_error (B : Builtins) {env env' : Env} (hnp : NoPr
 
 /-- Contrapositive reading: if some extension of the environment changes the value — as binding the name
     behind an unbound-variable failure does — then a *reported* name is neither a type name nor bound. -/
-theorem binding_failure_needs_unbound_name {e : Ast} (h : InFragmentM e) {env env' : Env}
-    (hext : Extends env env') (hne : evalSpec e env' ≠ evalSpec e env) :
+theorem binding_failure_needs_unbound_name {B : Builtins} {e : Ast} (h : InFragmentM e) {env env' : Env}
+    (hext : Extends env env') (hne : evalSpec B e env' ≠ evalSpec B e env) :
     ∃ n ∈ params e, env.getType n = none ∧ env.getParam n = none := by
   apply Classical.byContradiction
   intro hno
@@ -261,20 +262,20 @@ theorem agreeAB : AgreeOn (params ex) envA envB := by
   rcases hn with rfl | rfl <;> exact ⟨rfl, rfl⟩
 
 -- params_sufficient_partial / exec_agree_on_params: envA and envB differ in order and in `z`
-example : evalSpec ex envA = evalSpec ex envB := params_sufficient_partial (frag_mono ex_frag) agreeAB
+example : evalSpec B ex envA = evalSpec B ex envB := params_sufficient_partial (frag_mono ex_frag) agreeAB
 example : execProg B envA (compileProgram B ex) = execProg B envB (compileProgram B ex) :=
   exec_agree_on_params B npA npB ex_frag agreeAB
 -- … and the common value is `true` (5 + 2 > 3), so the statement is not about two failures only
-example : evalSpec ex envA = .bool true := by rfl
+example : evalSpec B ex envA = .bool true := by rfl
 -- unreported_irrelevant / exec_unreported_irrelevant: `z` is not reported
-example : evalSpec ex (envA.bind "z".toList (.str "s".toList)) = evalSpec ex envA :=
+example : evalSpec B ex (envA.bind "z".toList (.str "s".toList)) = evalSpec B ex envA :=
   unreported_bind_irrelevant (frag_mono ex_frag) (by rw [ex_params]; decide) _ _
 example : execProg B (envA.bind "z".toList .null) (compileProgram B ex) = execProg B envA (compileProgram B ex) :=
   exec_unreported_irrelevant B npA ex_frag (by rw [ex_params]; decide) _
 -- … while `x` is reported, and rebinding it does change the value: the hypothesis `x ∉ params e` matters
-example : evalSpec ex (envA.bind "x".toList (.int 0)) ≠ evalSpec ex envA := by
-  rw [show evalSpec ex (envA.bind "x".toList (.int 0)) = .bool false from rfl,
-    show evalSpec ex envA = .bool true from rfl]
+example : evalSpec B ex (envA.bind "x".toList (.int 0)) ≠ evalSpec B ex envA := by
+  rw [show evalSpec B ex (envA.bind "x".toList (.int 0)) = .bool false from rfl,
+    show evalSpec B ex envA = .bool true from rfl]
   intro h; cases h
 -- params_no_binding_error_partial / exec_params_no_binding_error: envA binds x and y; envA.bind z extends it
 theorem allBoundA : AllBound envA (params ex) := by
@@ -287,7 +288,7 @@ theorem extendsA : Extends envA (envA.bind "w".toList (.int 9)) := by
   by_cases hw : "w".toList = n
   · subst hw; cases h
   · rw [getParam_bind_ne _ _ hw]; exact h
-example : evalSpec ex (envA.bind "w".toList (.int 9)) = evalSpec ex envA :=
+example : evalSpec B ex (envA.bind "w".toList (.int 9)) = evalSpec B ex envA :=
   params_no_binding_error_partial (frag_mono ex_frag) allBoundA extendsA
 example : execProg B (envA.bind "w".toList (.int 9)) (compileProgram B ex) = execProg B envA (compileProgram B ex) :=
   exec_params_no_binding_error B npA (noProgs_bind npA _ _) ex_frag allBoundA extendsA
@@ -296,7 +297,7 @@ example : ∃ v, envA.getParam "y".toList = some v ∧ resolveIdent envA "y".toL
     (.binL (.binR (.memberP .ident)))).resolve_left (fun ⟨_, h, _⟩ => by cases h)
 -- binding_failure_needs_unbound_name: envX leaves `y` unbound, the value is a Binding failure, and the
 -- extension that binds `y` changes it
-example : evalSpec ex envX = .err .binding := by rfl
+example : evalSpec B ex envX = .err .binding := by rfl
 example : ∃ n ∈ params ex, envX.getType n = none ∧ envX.getParam n = none :=
   binding_failure_needs_unbound_name (frag_mono ex_frag) (env' := envX.bind "y".toList (.int 3))
     ⟨fun _ => rfl, fun n v h => by
@@ -304,8 +305,8 @@ example : ∃ n ∈ params ex, envX.getType n = none ∧ envX.getParam n = none 
       · subst hy; cases h
       · rw [getParam_bind_ne _ _ hy]; exact h⟩
     (by
-      rw [show evalSpec ex (envX.bind "y".toList (.int 3)) = .bool true from rfl,
-        show evalSpec ex envX = .err .binding from rfl]
+      rw [show evalSpec B ex (envX.bind "y".toList (.int 3)) = .bool true from rfl,
+        show evalSpec B ex envX = .err .binding from rfl]
       intro h; cases h)
 -- exec_agree_on_params_match / exec_unreported_irrelevant_match: `match x { case > y: 1, case _: z }`
 def exM : Ast := .match_ sp0 vx [.mk sp0 (.cmp sp0 sp0 .gt vy) (lit 1), .mk sp0 (.any sp0) (var "z")]
